@@ -136,6 +136,7 @@ fn edit_name(e: &Edit) -> &'static str {
         Edit::SetImports(_) => "imports-only",
         Edit::Break(_) => "break",
         Edit::Resend => "resend",
+        Edit::Retarget(_) => "retarget-imports",
     }
 }
 
